@@ -558,7 +558,7 @@ def judge_broken_source(rec, rnd, tmp, k):
         shutil.rmtree(root, ignore_errors=True)
 
 
-def judge_probe(rec, rnd, tmp, k):
+def judge_probe(rec, rnd, tmp, k, fixed=None):
     rf = probe_rulefile(rnd)
     mode = rnd.choice(['first_match', 'first_match', 'most_specific'])
     root = os.path.join(tmp, 'p%d' % k)
@@ -574,6 +574,8 @@ def judge_probe(rec, rnd, tmp, k):
         desc = rnd.choice(['SQ *', 'APLPAY ', 'aplpay ', 'sq *']) + rnd.choice(['QQQ NOTHING xx', 'blue bottle coffee', 'ZZTOP']) + rnd.choice(['', ' 77'])
         rec.count('description_probes_rewritten_by_a_transform')
     amount = rnd.choice([5.0, 15.0, 150.0, 600.0, -30.0, -1.25, -600.0])
+    if fixed:
+        rf, mode, desc, amount = fixed
     settings = {'year': 2025, 'merchants_file': 'config/merchants.rules', 'rule_mode': mode,
                 'data_sources': [{'name': 'Main', 'file': 'data/main.csv', 'format': '{date:%Y-%m-%d},{description},{amount}'}]}
     for sub in ('a', 'b'):
@@ -637,6 +639,103 @@ def judge_probe(rec, rnd, tmp, k):
     shutil.rmtree(root, ignore_errors=True)
 
 
+FIXED_PROBES = [
+    # the most specific rule names a merchant and no subcategory; a general rule has one (most_specific resolves each of the three on its own)
+    ([('Uber', 'contains("UBER")', 'Transport', 'Rides', {}), ('Uber Big', 'contains("UBER") and amount > 100', 'Food', '', {'merchant': 'Merchant Uber 1'})], 'most_specific', 'aplpay UBER', 600.0),
+    ([('Uber Big', 'contains("UBER") and amount > 100', 'Food', '', {'merchant': 'Merchant Uber 1'}), ('Uber', 'contains("UBER")', 'Transport', 'Rides', {})], 'first_match', 'UBER STORE', 150.0),
+    ([('Uber', 'contains("UBER")', 'Transport', 'Rides', {}), ('Uber Big', 'contains("UBER") and amount > 100', 'Food', '', {'merchant': 'Merchant Uber 1'})], 'first_match', 'UBER STORE', 150.0),
+    # a tag-only rule first, a prioritised refund rule, a general rule
+    ([('Tag', 'contains("PROBE")', '', '', {'tags': ['t1']}), ('Refunds', 'contains("PROBE") and amount < 0', 'Refunds', 'Store', {'priority': 60}), ('Any', 'contains("PROBE")', 'Shopping', 'General', {})],
+     'most_specific', 'SQ *xx PROBE', -30.0),
+    ([('Tag', 'contains("PROBE")', '', '', {'tags': ['t1']}), ('Any', 'contains("PROBE")', 'Shopping', 'General', {}), ('Refunds', 'contains("PROBE") and amount < 0', 'Refunds', 'Store', {})],
+     'first_match', 'PROBE xx STORE', -30.0),
+    # a let binding decides
+    ([('K', '(contains("ZQ")) and k > 20', 'Fees', 'Bank', {'lets': [('k', 'amount * 2')]}), ('Z', 'contains("ZQ")', 'Misc', 'Other', {})], 'first_match', 'ZQ xx 77', 15.0),
+    ([('K', '(contains("ZQ")) and k > 20', 'Fees', 'Bank', {'lets': [('k', 'amount * 2')]}), ('Z', 'contains("ZQ")', 'Misc', 'Other', {})], 'first_match', 'ZQ xx 77', 5.0),
+]
+
+
+def fixed_scenarios(rec, rnd, tmp):
+    """Scenarios the random budgets only meet now and then, run on every change."""
+    for i, (rules, mode, desc, amount) in enumerate(FIXED_PROBES):
+        rf = R.RuleFile(variables=[], rules=[R.Rule(n, m, c, sc, **kw) for n, m, c, sc, kw in rules])
+        judge_probe(rec, rnd, tmp, 9000 + i, fixed=(rf, mode, desc, amount))
+    rec.count('fixed_description_probes', len(FIXED_PROBES))
+    case = {'kind': 'fixed'}
+
+    def mk(name, rows, rules=None, csv=None, mode=None):
+        root = os.path.join(tmp, 'fx-' + name)
+        shutil.rmtree(root, ignore_errors=True)
+        os.makedirs(os.path.join(root, 'config'))
+        os.makedirs(os.path.join(root, 'data'))
+        with open(os.path.join(root, 'config', 'settings.yaml'), 'w') as f:
+            f.write('year: 2025\n' + ('merchants_file: config/merchants.rules\n' if rules else '') + ('rule_mode: %s\n' % mode if mode else '') +
+                    'data_sources:\n  - name: Main\n    file: data/main.csv\n    format: "{date:%Y-%m-%d},{description},{amount}"\n')
+        with open(os.path.join(root, 'config', 'merchants.rules' if rules else 'merchant_categories.csv'), 'w') as f:
+            f.write(rules or csv)
+        with open(os.path.join(root, 'data', 'main.csv'), 'w') as f:
+            f.write('Date,Description,Amount\n' + ''.join('2025-01-%02d,%s,%.2f\n' % (i + 2, d, a) for i, (d, a) in enumerate(rows)))
+        return root, os.path.join(root, 'config')
+
+    # merchants whose names differ only in letter case, in both orders of first appearance: each name explains ITS merchant
+    twin = ('[A]\nmatch: contains("ACME") and amount < 50\nmerchant: ACME STORE\ncategory: Transport\nsubcategory: Upper\n\n'
+            '[B]\nmatch: contains("ACME")\nmerchant: Acme store\ncategory: Shopping\nsubcategory: Lower\n')
+    for order in ([('ACME 1', 10.0), ('ACME 2', 80.0)], [('ACME 2', 80.0), ('ACME 1', 10.0)]):
+        root, cfg = mk('twin', order + [('CORNER SHOP 12', 80.0), ('CORNER SHOP 12', -30.0), ('REFUND DESK 7', 20.0), ('REFUND DESK 7', -50.0), ('ONE OFF', -5.0)], rules=twin)
+        pu, U = up_json(root, cfg)
+        rec.count('cli_runs')
+        if U is None:
+            continue
+        for m in U['merchants']:
+            if m['name'] not in ('ACME STORE', 'Acme store'):
+                continue
+            pe = B.tally(root, 'explain', m['name'], cfg, '--format', 'json')
+            rec.count('cli_runs')
+            rec.count('fixed_case_twin_explain_checks')
+            try:
+                E = json.loads(pe.stdout[pe.stdout.index('{'):])
+            except Exception:
+                E = {}
+            if (E.get('name'), E.get('category'), E.get('subcategory'), E.get('total')) != (m['name'], m['category'], m['subcategory'], m['total']):
+                rec.violation('explain-merchant-differs', f'merchants ACME STORE / Acme store (first seen: {order[0][0]}): explain {m["name"]!r} reports '
+                              f'{(E.get("name"), E.get("category"), E.get("subcategory"), E.get("total"))}, up {(m["name"], m["category"], m["subcategory"], m["total"])}', case)
+        # unknown descriptions with charges AND refunds (net positive, net negative, refund only)
+        pd = B.tally(root, 'discover', cfg, '--format', 'json', '-n', '0')
+        rec.count('cli_runs')
+        try:
+            D = json.loads(pd.stdout[pd.stdout.index('['):])
+        except Exception:
+            D = []
+        rows_by = {}
+        for d, a in order + [('CORNER SHOP 12', 80.0), ('CORNER SHOP 12', -30.0), ('REFUND DESK 7', 20.0), ('REFUND DESK 7', -50.0), ('ONE OFF', -5.0)]:
+            rows_by.setdefault(d, []).append(a)
+        exp = [{'triple': None, 'desc': d, 'raw_amount': a} for d, al in rows_by.items() if 'ACME' not in d for a in al]
+        for x in D:
+            judge_discover_totals(rec, [x], exp, case)
+        rec.count('fixed_discover_mixed_sign_checks', len(D))
+        shutil.rmtree(root, ignore_errors=True)
+    # a legacy CSV budget in most_specific mode, migrated by the very `up` run whose report explain is compared with
+    root, cfg = mk('mig', [('UBER EATS 42', 25.0), ('UBER TRIP', 12.0)], csv='Pattern,Merchant,Category,Subcategory\nUBER,General Uber,Transport,Ride\nUBER.*EATS,Specific Uber,Food,Delivery\n', mode='most_specific')
+    pu, U = up_json(root, cfg, migrate=True)
+    rec.count('cli_runs')
+    if U is not None:
+        for m in U['merchants']:
+            for d in (m.get('raw_descriptions') or {}):
+                probe = d + ' 99'          # (a text that is not in the statements: explain traces the rules for it)
+                pe = B.tally(root, 'explain', probe, cfg, '--amount', '25', '--format', 'json')
+                rec.count('cli_runs')
+                rec.count('fixed_migrating_run_checks')
+                try:
+                    E = json.loads(pe.stdout[pe.stdout.index('{'):])
+                except Exception:
+                    E = {}
+                got = (E.get('merchant'), E.get('category'), E.get('subcategory'))
+                if got != (m['name'], m['category'], m['subcategory']):
+                    rec.violation('explain-differs-from-the-migrating-up-run', f'legacy CSV rules, rule_mode most_specific, `up --migrate` reports {d!r} as '
+                                  f'{(m["name"], m["category"], m["subcategory"])}; explain {probe!r} right afterwards says {got}', case)
+    shutil.rmtree(root, ignore_errors=True)
+
+
 def run(rec, shard, nshards, t):
     core.import_tally()
     rnd = core.rng_for('C16', shard)
@@ -652,6 +751,8 @@ def run(rec, shard, nshards, t):
             judge_broken_source(rec, rnd, tmp, k)
         if shard == 0:
             rec.sample({'probe_rules': R.render(probe_rulefile(rnd))[:500]})
+        if shard == nshards - 1:
+            fixed_scenarios(rec, rnd, tmp)
     finally:
         shutil.rmtree(tmp, ignore_errors=True)
 
@@ -663,6 +764,9 @@ def replay(rec, case):
     try:
         if case.get('kind') == 'gross-net-witness':
             gross_net_witness(rec, tmp)
+            return
+        if case.get('kind') == 'fixed':
+            fixed_scenarios(rec, rnd, tmp)
             return
         if case.get('kind') == 'probe-csv-tagonly':
             for k in range(12):
